@@ -106,12 +106,16 @@ TraceSpline ==
             /\ Judge(e.panic \/ ~(\A j \in 1..Len(e.coef) : Finite(e.coef[j])) \/ SplineOK(e), "constrained spline")
 
 \* ------------------------------------------------------------------ linear
-RECURSIVE RunMaxBits(_, _)
-RunMaxBits(kn, n) == IF n = 1 THEN kn[1][1] ELSE MaxOf(RunMaxBits(kn, n - 1), kn[n][1])
+\* running maximum of the abscissae (bit patterns), as a concrete sequence built left to right
+RECURSIVE RunMaxFrom(_, _, _)
+RunMaxFrom(kn, j, acc) == IF j > Len(kn) THEN acc
+                          ELSE RunMaxFrom(kn, j + 1, Append(acc, IF j = 1 THEN kn[1][1] ELSE MaxOf(acc[j - 1], kn[j][1])))
+RunMaxAll(kn) == RunMaxFrom(kn, 1, << >>)
 
 LinearOK(e) ==
     LET ks == Knots(e)  n == Len(ks)
-        X == [j \in 1..n |-> Val(RunMaxBits(e.knots, j))]            \* forced abscissae
+        RM == RunMaxAll(e.knots)
+        X == [j \in 1..n |-> Val(RM[j])]                             \* forced abscissae
         C == [j \in 1..Len(e.coef) |-> Vals(e.coef[j])]
         \* width as the code sees it: the rounded difference of the forced abscissae
         W == [j \in 1..(n - 1) |-> Val(Fl(BRSub(X[j + 1], X[j])))]
@@ -121,7 +125,7 @@ LinearOK(e) ==
     IN
     /\ Len(e.coef) = n - 1 /\ Len(e.ends) = n - 1
     \* ends are the running maximum of the abscissae (numerically: either zero may stand for the other)
-    /\ \A j \in 1..(n - 1) : NumEq(e.ends[j], RunMaxBits(e.knots, j + 1))
+    /\ \A j \in 1..(n - 1) : NumEq(e.ends[j], RM[j + 1])
     /\ P!WellFormed(e.ends)
     /\ \A j \in 1..(n - 1) :
           /\ Len(e.coef[j]) = 2
@@ -149,8 +153,8 @@ LinearInScope(e) ==
           /\ InRange(BRMul(BRSub(ks[j + 1][2], ks[j][2]), BRPow2(60)))     \* slope * |x| cannot overflow for |x| < 2^..
           /\ InRange(ks[j][1]) /\ InRange(Sq(ks[j][1]))
 
-Irregular(e) == \E j \in 1..(Len(e.knots) - 1) :
-    LET a == Val(RunMaxBits(e.knots, j))  b == Val(e.knots[j + 1][1]) IN BRLt(BRSub(b, a), Eps)
+Irregular(e) == LET RM == RunMaxAll(e.knots) IN \E j \in 1..(Len(e.knots) - 1) :
+    LET a == Val(RM[j])  b == Val(e.knots[j + 1][1]) IN BRLt(BRSub(b, a), Eps)
 
 TraceLinear ==
     /\ IsEvent("linear")
